@@ -12,7 +12,9 @@
 (*      elsewhere: an input like any other) | "stdinxml" (the argument "-":  *)
 (*      well-formed XML on standard input; needs -t, never prefixed) | "svg" *)
 (*      (well-formed XML in a .svg file: media type image/svg+xml - the type *)
-(*      is found in the media type, not only in its subtype)                 *)
+(*      is found in the media type, not only in its subtype) | "missing" (a   *)
+(*      path argument that does not exist: a diagnostic, nothing else, and    *)
+(*      the other arguments are processed as if it were not there)            *)
 (* Flags: a m n r : BOOLEAN, t : "" | "xml" | "json" | "html", e : BOOLEAN   *)
 (*      (-e foo=bar), u : BOOLEAN (-u: non-strict XML decoding),             *)
 (*      q : "ns" | "empty" | "num" | "bool" (the kind of value the query     *)
@@ -33,11 +35,11 @@ RECURSIVE Under(_, _, _)
 Under(tree, i, fuel) == IF tree[i].in = 0 \/ fuel = 0 THEN FALSE ELSE TRUE
 \* a directory is descended only with -r; without it the directory argument is reported and skipped
 Visited(tree, fl, i) == fl.q # "bad" /\ (tree[i].in = 0 \/ fl.r)
-ExtType(cls) == CASE cls \in {"xml", "xmlbad", "xmlent", "dangling", "linkxml", "svg"} -> "xml" [] cls = "json" -> "json" [] cls = "html" -> "html" [] OTHER -> "none"
+ExtType(cls) == CASE cls \in {"xml", "xmlbad", "xmlent", "dangling", "linkxml", "svg", "missing"} -> "xml" [] cls = "json" -> "json" [] cls = "html" -> "html" [] OTHER -> "none"
 ParseType(fl, cls) == IF fl.t # "" THEN fl.t ELSE ExtType(cls)
 \* does the content parse under the chosen type?  ("unk": not determined - e.g. JSON text read as XML)
 Parses(fl, cls, pt) ==
-  CASE cls = "dangling" -> "no"
+  CASE cls \in {"dangling", "missing"} -> "no"
     [] pt = "none" -> "no"
     [] cls \in {"xml", "linkxml", "stdinxml", "svg"} -> IF pt = "xml" THEN "yes" ELSE "unk"
     [] cls = "xmlbad" -> IF pt = "xml" THEN (IF fl.u THEN "unk" ELSE "no") ELSE "unk"      \* what a lenient decoder makes of it is not specified
@@ -54,7 +56,8 @@ FileSpec(tree, fl, i) ==
       pt == ParseType(fl, e.cls)
       ok == Parses(fl, e.cls, pt)
   IN IF IsDirE(e) THEN [visit |-> visit, parse |-> "none", diag |-> (e.in = 0 /\ ~fl.r /\ fl.q # "bad"), records |-> "none", prefix |-> FALSE, det |-> TRUE]
-     ELSE IF ~visit THEN [visit |-> FALSE, parse |-> "none", diag |-> FALSE, records |-> "none", prefix |-> FALSE, det |-> TRUE]
+     \* (a name inside a directory that does not exist is simply not there)
+     ELSE IF ~visit \/ (e.cls = "missing" /\ e.in # 0) THEN [visit |-> FALSE, parse |-> "none", diag |-> FALSE, records |-> "none", prefix |-> FALSE, det |-> TRUE]
      \* (a file that parses but on which the query fails owes a diagnostic naming it, and no record)
      ELSE [visit |-> TRUE, parse |-> pt, diag |-> (ok = "no" \/ (ok = "yes" /\ fl.q = "err")), records |-> IF ok = "yes" THEN Records(fl) ELSE "none",
            prefix |-> ~fl.n /\ e.cls # "stdinxml", det |-> ok # "unk"]
